@@ -211,6 +211,9 @@ func decode(in any, out reflect.Value) error {
 		case reflect.Map:
 			t := out.Type()
 			kt := t.Key()
+			if kt.Kind() != reflect.String {
+				return fmt.Errorf("jwt: can't covert object to %s", t.String())
+			}
 			if out.IsNil() {
 				out.Set(reflect.MakeMapWithSize(t, len(in)))
 			}
@@ -220,12 +223,7 @@ func decode(in any, out reflect.Value) error {
 				if err := decode(v, subv); err != nil {
 					return err
 				}
-				var kv reflect.Value
-				switch {
-				case kt.Kind() == reflect.String:
-					kv = reflect.ValueOf(k).Convert(kt)
-				}
-				out.SetMapIndex(kv, subv)
+				out.SetMapIndex(reflect.ValueOf(k).Convert(kt), subv)
 			}
 		case reflect.Interface:
 			if out.NumMethod() != 0 {
